@@ -2,6 +2,7 @@ package main
 
 import (
 	"fmt"
+	"github.com/jcmturner/gokrb5/v8/types"
 	"reflect"
 	"runtime"
 	"sort"
@@ -207,6 +208,98 @@ func c11(c *Ctx) {
 		for _, k := range ks {
 			k.Close()
 		}
+	}
+	c11Renewal(c)
+}
+
+// c11Renewal: cached service tickets just past their end time and still renewable: concurrent requests go through
+// renewTicket (the KDC tolerates a second of clock skew and renews, with a NEW session key); every pair handed back
+// must be one the KDC issued together.  (The KDC here serves renewal requests whose authenticator is under key usage 11:
+// see kdc.LenientRenewUsage.)
+func c11Renewal(c *Ctx) {
+	realm := "TEST.GOKRB5"
+	k := kdc.New(realm)
+	k.AddPrincipal([]string{"testuser1"}, "passwordvalue", 2)
+	spns := [][]string{{"HTTP", "a.test.gokrb5"}, {"HTTP", "b.test.gokrb5"}, {"HTTP", "c.test.gokrb5"}}
+	for _, s := range spns {
+		k.AddPrincipal(s, "svcpw", 1)
+	}
+	k.TicketLifetime, k.ServiceLifetime, k.RenewLifetime = time.Hour, 2*time.Second, time.Hour
+	k.LenientRenewUsage = true // otherwise no renewal of a service ticket ever succeeds and renewTicket's success path is not reached
+	if err := k.Serve(); err != nil {
+		c.Notes = append(c.Notes, "c11Renewal: simulated KDC did not start: "+err.Error())
+		return
+	}
+	defer k.Close()
+	rounds := 1
+	if !c.Quick() {
+		rounds = 4
+	}
+	for round := 0; round < rounds; round++ {
+		cfg := testConfig(realm, []string{k.Addr}, []int32{18})
+		cfg.LibDefaults.RenewLifetime = time.Hour
+		cl := client.NewWithPassword("testuser1", realm, "passwordvalue", cfg, client.DisablePAFXFAST(true))
+		if err := cl.Login(); err != nil {
+			c.Check(false, "login succeeds", "login-fails", err.Error(), nil)
+			return
+		}
+		var latest time.Time
+		for _, s := range spns {
+			if _, _, err := cl.GetServiceTicket(joinSlash(s)); err != nil {
+				c.Check(false, "a service ticket is obtained", "get-fails", err.Error(), nil)
+			}
+		}
+		for _, is := range k.Issues {
+			if is.Kind == "TGS" && is.End.After(latest) {
+				latest = is.End
+			}
+		}
+		if w := time.Until(latest.Add(150 * time.Millisecond)); w > 0 {
+			time.Sleep(w)
+		}
+		n0 := len(k.Requests)
+		type got struct {
+			spn, id, key string
+			err          error
+		}
+		var mu sync.Mutex
+		var gots []got
+		var wg sync.WaitGroup
+		for g := 0; g < 6; g++ {
+			wg.Add(1)
+			go func(g int) {
+				defer wg.Done()
+				for i := 0; i < 3; i++ {
+					s := spns[(g+i)%3]
+					t, key, err := cl.GetServiceTicket(joinSlash(s))
+					mu.Lock()
+					gots = append(gots, got{joinSlash(s), kdc.TicketID(t), string(key.KeyValue), err})
+					mu.Unlock()
+				}
+			}(g)
+		}
+		wg.Wait()
+		renewals := 0
+		for _, rq := range k.Requests[n0:] {
+			if rq.Kind == "TGS" && rq.TGS != nil && types.IsFlagSet(&rq.TGS.ReqBody.KDCOptions, 30) {
+				renewals++
+			}
+		}
+		c.Hist["renewal-requests"] += renewals
+		issued := map[string]string{}
+		for _, is := range k.Issues {
+			issued[is.TicketHash+"|"+joinSlash(is.SName)] = string(is.Key.KeyValue)
+		}
+		for _, gt := range gots {
+			if gt.err != nil {
+				c.Check(false, "GetServiceTicket succeeds for an expired, renewable cached ticket", "get-fails-renewal", gt.err.Error(), nil)
+				continue
+			}
+			key, ok := issued[gt.id+"|"+gt.spn]
+			c.Check(ok && key == gt.key, "every (ticket, session key) pair returned was issued together by the KDC", "pair-mismatch-renewal", gt.spn, nil)
+		}
+		c.Count("renewal-round")
+		cl.Destroy()
 	}
 }
 
